@@ -9,6 +9,14 @@ SELF = ('T', ('param', 1))
 
 
 def run(ctx):
+    _run(ctx)
+    ctx.delegate("C05", ["C05.fold", "C05.fields", "C05.minmax"], "C02.box",
+                 "the box and the Z / M ranges stored in a record are the extremes of the arrays that follow them: the constructors fold "
+                 "min/max over every vertex of every part", floor=10)
+    ctx.delegate("C09", ["C09.ctor", "C09.W5"], "C02.commit",
+                 "a writer that received no shape still leaves a well-formed header-only file: a new writer is dirty", floor=3)
+
+def _run(ctx):
     F = ctx.facts("default")
     sp = util.spec()
     ctx.rule("C02.header", "Header::write_to emits exactly the ESRI main header: BE 9994, 20 zero bytes, BE length, LE version, LE type "
